@@ -176,3 +176,18 @@ def has_yield(fn_node):
 def param_names(fn_node):
     a = fn_node.args
     return [x.arg for x in a.posonlyargs + a.args]
+
+
+def enclosing_block(stmt):
+    """The statement list (body / orelse / finalbody / handler body) that directly contains stmt, or None."""
+    par = getattr(stmt, "_parent", None)
+    if par is None:
+        return None
+    for fld in ("body", "orelse", "finalbody"):
+        blk = getattr(par, fld, None)
+        if isinstance(blk, list) and any(x is stmt for x in blk):
+            return blk
+    for h in getattr(par, "handlers", []) or []:
+        if any(x is stmt for x in h.body):
+            return h.body
+    return None
